@@ -476,17 +476,21 @@ fn pv_show(p: &Pv) -> String {
 
 const OPS_TEMPLATE: &str = "{% if a == b %}1{% else %}0{% endif %}{% if a != b %}1{% else %}0{% endif %}{% if a < b %}1{% else %}0{% endif %}{% if a > b %}1{% else %}0{% endif %}{% if a <= b %}1{% else %}0{% endif %}{% if a >= b %}1{% else %}0{% endif %}{% case a %}{% when b %}1{% else %}0{% endcase %}";
 const CONTAINS_TEMPLATE: &str = "{% if a contains b %}1{% else %}0{% endif %}";
+/// `[a, b] | uniq` has one element exactly when uniq considers a and b equal: the laws of equality as
+/// observed through the filter (digits: size of [a,b], [b,a], [a,a]).
+const UNIQ_TEMPLATE: &str = "{% assign ab = a | concat: b | uniq %}{% assign ba = b | concat: a | uniq %}{% assign aa = a | concat: a | uniq %}{{ ab | size }}{{ ba | size }}{{ aa | size }}";
 const SORT_TEMPLATE: &str = "{{ arr | sort | map: 'zid' | join: ',' }}|{{ arr | sort: 'v' | map: 'zid' | join: ',' }}|{{ arr | uniq | size }}|{{ arr | map: 'v' | uniq | size }}";
 
 struct Templates {
     ops: liquid::Template,
     contains: liquid::Template,
+    uniq: liquid::Template,
     sort: liquid::Template,
 }
 
 fn templates() -> Templates {
     let p = liquid::ParserBuilder::with_stdlib().build().expect("stdlib parser");
-    Templates { ops: p.parse(OPS_TEMPLATE).expect("ops template"), contains: p.parse(CONTAINS_TEMPLATE).expect("contains template"), sort: p.parse(SORT_TEMPLATE).expect("sort template") }
+    Templates { ops: p.parse(OPS_TEMPLATE).expect("ops template"), contains: p.parse(CONTAINS_TEMPLATE).expect("contains template"), uniq: p.parse(UNIQ_TEMPLATE).expect("uniq template"), sort: p.parse(SORT_TEMPLATE).expect("sort template") }
 }
 
 fn render_pair(t: &liquid::Template, a: &Value, b: &Value) -> Outcome {
@@ -503,6 +507,7 @@ fn check_pair_templates(t: &Templates, pa: &Pv, pb: &Pv, a: &[&Value], b: &[&Val
     // has to be the same for every construction
     let want = format!("{}{}{}{}{}{}", base.eq as u8, base.ne as u8, base.lt as u8, base.gt as u8, base.le as u8, base.ge as u8);
     let mut first_contains: Option<Outcome> = None;
+    let mut first_uniq: Option<Outcome> = None;
     let mut first_case: Option<u8> = None;
     for x in a {
         for y in b {
@@ -541,6 +546,42 @@ fn check_pair_templates(t: &Templates, pa: &Pv, pb: &Pv, a: &[&Value], b: &[&Val
                         "T1-template-branch-differs".into(),
                         format!("`{} contains {}` renders {} but element-wise equality says {}", pv_show(pa), pv_show(pb), c.show(), want),
                     ));
+                }
+            }
+            // equality as observed through `uniq`: symmetric, reflexive (where == is), an integer and
+            // a float denoting the same number collapse, and the same for every construction
+            {
+                let mut g = Object::new();
+                g.insert("a".into(), Value::Array(vec![(*x).clone()]));
+                g.insert("b".into(), Value::Array(vec![(*y).clone()]));
+                let u = crate::world::render_buffered(&t.uniq, &g);
+                rep.evals += 1;
+                match &u {
+                    Outcome::Ok(d) if d.len() == 3 => {
+                        if d[0] != d[1] {
+                            return Some(("U2-uniq-asymmetric".into(), format!("[{0}, {1}] | uniq has {2} element(s) but [{1}, {0}] | uniq has {3}", pv_show(pa), pv_show(pb), d[0] as char, d[1] as char)));
+                        }
+                        let refl = ValueViewCmp::new(*x) == ValueViewCmp::new(*x);
+                        if refl && d[2] != b'1' {
+                            return Some(("U1-uniq-not-reflexive".into(), format!("[{0}, {0}] | uniq has {1} elements although {0} == {0}", pv_show(pa), d[2] as char)));
+                        }
+                        if let (Pv::Int(i), Pv::Float(fb)) = (pa, pb) {
+                            let fv = f64::from_bits(*fb);
+                            if i.unsigned_abs() <= (1u64 << 53) && fv == *i as f64 && d[0] != b'1' {
+                                return Some(("L7-int-float-unequal".into(), format!("{i} and {fv:?} denote the same number but [{i}, {fv:?}] | uniq keeps both")));
+                            }
+                        }
+                    }
+                    Outcome::Panic(m) => return Some(("T1-panic".into(), format!("uniq over {} / {} panicked: {m}", pv_show(pa), pv_show(pb)))),
+                    _ => {}
+                }
+                match &first_uniq {
+                    None => first_uniq = Some(u),
+                    Some(f0) => {
+                        if *f0 != u {
+                            return Some(("L8-construction-dependent".into(), format!("`[{}, {}] | uniq` gives {} for one pair of builds and {} for another", pv_show(pa), pv_show(pb), f0.show(), u.show())));
+                        }
+                    }
                 }
             }
             match &first_contains {
